@@ -20,7 +20,7 @@ static void check_stale(RSModel& m, const std::vector<EntityUID>& watch, const c
   }
 }
 // scenario 1: chain of terms X1 -> D1 -> D2
-static int scenario_terms(const std::string& g) {
+static int scenario_terms(const std::string& g, int variant = 0) {
   RSModel m;
   const auto x1 = m.Emplace(CstType::base), x2 = m.Emplace(CstType::base);
   const auto d1 = m.Emplace(CstType::term, "X1");
@@ -32,7 +32,8 @@ static int scenario_terms(const std::string& g) {
   std::vector<EntityUID> watch{ d1, d2 };
   if (g == "pr_erase") { m.Erase(d1); watch = { d2 }; }
   else if (g == "pr_setexpr") { m.SetExpressionFor(d1, "X2"); watch = { d2 }; }
-  else if (g == "pr_setbasictext") { TextInterpretation t{}; t.SetInterpretantFor(5, "p"); t.SetInterpretantFor(7, "q"); m.Values().SetBasicText(x1, t); }
+  else if (g == "pr_setbasictext" && variant == 0) { TextInterpretation t{}; t.SetInterpretantFor(5, "p"); t.SetInterpretantFor(7, "q"); m.Values().SetBasicText(x1, t); }   // other keys
+  else if (g == "pr_setbasictext") { const auto* old = m.Values().TextFor(x1); if (old == nullptr) return 2; TextInterpretation t = *old; t.PushBack("appended"); m.Values().SetBasicText(x1, t); }   // same keys and one more
   else if (g == "pr_addbasic") { m.Values().AddBasicElement(x1, "z"); }
   else if (g == "pr_resetdata") { m.Values().ResetDataFor(x1); }
   else return 2;
@@ -74,7 +75,7 @@ int main(int argc, char** argv) {
   std::string g = argv[1];
   if (g == "pr_prune") { if (scenario_structure(g) == 2) return 2; return verdict(); }
   if (g == "pr_resetdependants") return 1;
-  int a = scenario_terms(g); int b = scenario_function(g); int c = scenario_structure(g);
+  int a = scenario_terms(g); if (g == "pr_setbasictext") scenario_terms(g, 1); int b = scenario_function(g); int c = scenario_structure(g);
   if (a == 2 && b == 2 && c == 2) return 2;
   return verdict();
 }
